@@ -11,6 +11,7 @@ import (
 	"fmt"
 	"io/ioutil"
 	"net"
+	"net/http"
 	"os"
 	"runtime"
 	"strconv"
@@ -20,6 +21,7 @@ import (
 	"time"
 
 	"github.com/gorilla/websocket"
+	"github.com/practable/relay/internal/access"
 	"github.com/practable/relay/internal/crossbar"
 	"github.com/practable/relay/internal/deny"
 	"github.com/practable/relay/internal/permission"
@@ -46,8 +48,11 @@ type Case struct {
 	ExpOff  int64  `json:"exp_off"` // exp = s0 + ExpOff
 	Other   string `json:"other"`   // "" | topic | aud | denied | scope : a non-time check made to fail
 	Pongs   bool   `json:"pongs"`
-	Behave  string `json:"behave"`  // "" | upong-empty | upong-payload | cping | emptymsg | closeframe | wrongpong | heartbeat
-	WatchS  int64  `json:"watch_s"` // 0 = until exp + 2.2 s ; else seconds after admission
+	Via     string `json:"via"` // "" = token put straight into the code store | api | api-after-long | api-before-long:
+	// through POST /session, alone / after / before a 1 h token of the SAME booking id got its session (the partner uses that one)
+	Scope  string `json:"scope"`   // "" = read+write | w = write only | r = read only
+	Behave string `json:"behave"`  // "" | upong-empty | upong-payload | cping | emptymsg | closeframe | wrongpong | heartbeat
+	WatchS int64  `json:"watch_s"` // 0 = until exp + 2.2 s ; else seconds after admission
 
 	// observed (absolute ns / s)
 	TLo        int64   `json:"t_lo"`
@@ -64,6 +69,7 @@ type Case struct {
 	UPongAt    []int64 `json:"upong_at"`        // unsolicited pongs the client sent
 	CPingAt    []int64 `json:"cping_at"`        // pings the client sent
 	CCloseAt   int64   `json:"cclose_at"`       // the client sent a close frame (TCP kept open) at
+	CPings     int     `json:"cpings"`          // pings the client sent (all of them; cping_at keeps at most 60 times)
 	PongsBack  int     `json:"pongs_back"`      // pongs the relay sent in answer to the client's pings
 	DataAt     []int64 `json:"data_at"`         // when messages were delivered to the probe (at most 200 kept)
 	Note       string  `json:"note,omitempty"`
@@ -83,7 +89,7 @@ func (c Case) coq() string {
 		return lib.List(out)
 	}
 	return lib.App("mkcase", lib.Z(c.TLo), lib.Z(c.THi), lib.Z(c.Nbf), lib.Z(c.Exp),
-		lib.Bool(c.Other == ""), lib.Bool(c.Pongs), lib.List(data), zs(c.UPongAt), zs(c.CPingAt),
+		lib.Bool(c.Other == ""), lib.Bool(c.Pongs), lib.List(data), zs(c.UPongAt), zs(c.CPingAt), lib.Z(int64(c.PongsBack)),
 		lib.OptionOf(c.CCloseAt != 0, lib.Z(c.CCloseAt)), lib.Z(c.WatchUntil), lib.Z(c.LastFrom), lib.Z(c.LastTo), lib.Bool(c.Accepted), closed)
 }
 
@@ -98,9 +104,10 @@ type rig struct {
 	closed chan struct{}
 
 	mu         sync.Mutex
-	registered map[string]int64 // booking id -> ns
-	dropped    map[string]int64
+	registered map[string][]int64 // booking id -> ns of every registration
+	dropped    map[string][]int64
 	done       map[string]int64 // code -> ns
+	api        *lib.Relay       // the access API in front of the same code store / deny store / hub
 }
 
 func startRig() *rig {
@@ -109,19 +116,17 @@ func startRig() *rig {
 	port := lib.FreePorts(1)[0]
 	r := &rig{cs: ttlcode.NewDefaultCodeStore(), ds: deny.New(), hub: crossbar.New(), port: port,
 		aud: "ws://127.0.0.1:" + strconv.Itoa(port), closed: make(chan struct{}),
-		registered: map[string]int64{}, dropped: map[string]int64{}, done: map[string]int64{}}
+		registered: map[string][]int64{}, dropped: map[string][]int64{}, done: map[string]int64{}}
 	verifhook.SetController(func(name, key string) {
 		now := time.Now().UnixNano()
 		switch name {
 		case "ws.afterRegister":
 			r.mu.Lock()
-			r.registered[key] = now
+			r.registered[key] = append(r.registered[key], now)
 			r.mu.Unlock()
 		case "hub.afterDrop":
 			r.mu.Lock()
-			if _, ok := r.dropped[key]; !ok {
-				r.dropped[key] = now
-			}
+			r.dropped[key] = append(r.dropped[key], now)
 			r.mu.Unlock()
 		case "ws.done":
 			r.mu.Lock()
@@ -134,6 +139,20 @@ func startRig() *rig {
 	denied := make(chan string, 64)
 	cfg := crossbar.Config{Listen: port, Audience: r.aud, BufferSize: 128, CodeStore: r.cs, DenyStore: r.ds, Hub: r.hub, StatsEvery: time.Second}
 	go crossbar.Crossbar(cfg, r.closed, denied, &wg)
+	// the access API in front of it (tokens that come the whole way: POST /session -> code -> websocket)
+	aport := lib.FreePorts(1)[0]
+	r.api = &lib.Relay{AccessURL: "http://127.0.0.1:" + strconv.Itoa(aport), Secret: "c06secret", HTTP: lib.NewHTTPClient()}
+	wg.Add(1)
+	go access.API(r.closed, &wg, access.Config{AllowNoBookingID: true, CodeStore: r.cs, DenyChannel: denied, DenyStore: r.ds,
+		Host: r.api.AccessURL, Hub: r.hub, Port: aport, Secret: r.api.Secret, Target: r.aud})
+	for i := 0; i < 1000; i++ {
+		c, err := net.DialTimeout("tcp", "127.0.0.1:"+strconv.Itoa(aport), 50*time.Millisecond)
+		if err == nil {
+			c.Close()
+			break
+		}
+		time.Sleep(5 * time.Millisecond)
+	}
 	for i := 0; i < 1000; i++ {
 		c, err := net.DialTimeout("tcp", "127.0.0.1:"+strconv.Itoa(port), 50*time.Millisecond)
 		if err == nil {
@@ -151,14 +170,63 @@ func (r *rig) get(m map[string]int64, k string) int64 {
 	return m[k]
 }
 
+// after returns the first time >= t recorded under k (0 = none): several connections may share a booking id
+func (r *rig) after(m map[string][]int64, k string, t int64) int64 {
+	r.mu.Lock()
+	defer r.mu.Unlock()
+	for _, x := range m[k] {
+		if x >= t {
+			return x
+		}
+	}
+	return 0
+}
+
+// apiCode gets a connection code the whole way through the access API (signed token -> POST /session)
+func (r *rig) apiCode(topic, bid string, scopes []string, nbf, exp int64) (string, error) {
+	st, _, code := r.api.Session(topic, lib.Sign(r.api.Claims(topic, bid, scopes, nbf, nbf, exp), r.api.Secret))
+	if st != 200 || code == "" {
+		return "", fmt.Errorf("POST /session answered %d", st)
+	}
+	return code, nil
+}
+
 func (r *rig) code(aud, topic, bid string, scopes []string, nbf, exp int64) string {
 	t := permission.NewToken(aud, "session", topic, scopes, nbf, nbf, exp)
 	t.SetBookingID(bid)
 	return r.cs.SubmitToken(t)
 }
 
+// oddHeaders: request headers a proxy or a tracing layer may add to a websocket upgrade - forwarded-for
+// in every shape (also malformed and very long), identical request ids on many connections, stale
+// request-start stamps. None of them may change anything.
+var oddHeaderSeq int64
+
+func oddHeaders() http.Header {
+	n := atomic.AddInt64(&oddHeaderSeq, 1)
+	h := http.Header{}
+	xff := []string{"", "203.0.113.7", "203.0.113.7, 10.0.0.1, 10.0.0.2", "203.0.113.7:51234", "[2001:db8::7]:443", "[2001:db8::7", " ", strings.Repeat("10.1.2.3, ", 400) + "10.9.9.9"}
+	if v := xff[n%int64(len(xff))]; v != "" {
+		h.Set("X-Forwarded-For", v)
+	}
+	switch n % 5 {
+	case 0:
+		h.Set("X-Real-Ip", "198.51.100.23")
+	case 1:
+		h.Set("Forwarded", "for=\"[2001:db8::7]:4711\";proto=https;by=203.0.113.43")
+	case 2:
+		h.Set("X-Request-Start", "t=12")
+	case 3:
+		h.Set("X-Request-Start", "not-a-time")
+	}
+	h.Set("X-Request-Id", "same-id-on-every-connection")
+	h.Set("X-Correlation-Id", "same-id-on-every-connection")
+	h.Set("Traceparent", "00-4bf92f3577b34da6a3ce929d0e0e4736-00f067aa0ba902b7-01")
+	return h
+}
+
 func (r *rig) dial(topic, code string, smallBuf bool) (*websocket.Conn, error) {
-	d := websocket.Dialer{HandshakeTimeout: 3 * time.Second}
+	d := websocket.Dialer{HandshakeTimeout: 3 * time.Second, EnableCompression: atomic.LoadInt64(&oddHeaderSeq)%4 == 3}
 	if smallBuf {
 		d.NetDial = func(network, addr string) (net.Conn, error) {
 			c, err := net.DialTimeout(network, addr, 3*time.Second)
@@ -168,7 +236,7 @@ func (r *rig) dial(topic, code string, smallBuf bool) (*websocket.Conn, error) {
 			return c, err
 		}
 	}
-	c, _, err := d.Dial(r.aud+"/session/"+topic+"?code="+code, nil)
+	c, _, err := d.Dial(r.aud+"/session/"+topic+"?code="+code, oddHeaders())
 	return c, err
 }
 
@@ -179,7 +247,31 @@ func runCase(r *rig, idx int, c *Case, tag string) {
 	bid := fmt.Sprintf("bk-%s-%d", tag, idx)
 	now := time.Now()
 	// partner: a long-lived member of the topic
-	pcode := r.code(r.aud, topic, "partner-"+bid, []string{"read", "write"}, now.Unix()-5, now.Unix()+7200)
+	pbid := "partner-" + bid
+	if strings.HasPrefix(c.Via, "api-") {
+		pbid = bid // two tokens of ONE booking with different expiries
+	}
+	var pcode, earlyCode string
+	var err error
+	preS0 := time.Now().Unix() + 1
+	if int64(time.Now().Nanosecond()) > 700e6 {
+		preS0++
+	}
+	if c.Via == "api-before-long" {
+		// the short token's session is requested first, the long one's afterwards
+		sc := map[string][]string{"": {"read", "write"}, "w": {"write"}, "r": {"read"}}[c.Scope]
+		earlyCode, err = r.apiCode(topic, bid, sc, preS0+c.NbfOff, preS0+c.ExpOff)
+		if err != nil {
+			c.Note = "session (short token first): " + err.Error()
+			return
+		}
+	}
+	if c.Via == "" {
+		pcode = r.code(r.aud, topic, pbid, []string{"read", "write"}, now.Unix()-5, now.Unix()+7200)
+	} else if pcode, err = r.apiCode(topic, pbid, []string{"read", "write"}, now.Unix()-5, now.Unix()+3600); err != nil {
+		c.Note = "partner session: " + err.Error()
+		return
+	}
 	partner, err := r.dial(topic, pcode, false)
 	if err != nil {
 		c.Note = "partner dial failed: " + err.Error()
@@ -215,8 +307,11 @@ func runCase(r *rig, idx int, c *Case, tag string) {
 	if int64(time.Now().Nanosecond()) > 900e6 {
 		s0++ // leave time for the preparation below
 	}
+	if earlyCode != "" {
+		s0 = preS0
+	}
 	c.Nbf, c.Exp = s0+c.NbfOff, s0+c.ExpOff
-	scopes := []string{"read", "write"}
+	scopes := map[string][]string{"": {"read", "write"}, "w": {"write"}, "r": {"read"}}[c.Scope]
 	aud, dialTopic := r.aud, topic
 	switch c.Other {
 	case "topic":
@@ -228,7 +323,18 @@ func runCase(r *rig, idx int, c *Case, tag string) {
 	case "scope":
 		scopes = []string{"admin"}
 	}
-	code := r.code(aud, topic, bid, scopes, c.Nbf, c.Exp)
+	var code string
+	switch {
+	case earlyCode != "":
+		code = earlyCode
+	case c.Via != "":
+		if code, err = r.apiCode(topic, bid, scopes, c.Nbf, c.Exp); err != nil {
+			c.Note = "session: " + err.Error()
+			return
+		}
+	default:
+		code = r.code(aud, topic, bid, scopes, c.Nbf, c.Exp)
+	}
 	time.Sleep(time.Until(time.Unix(s0, int64(c.PhaseMs)*1e6)))
 
 	c.TLo = time.Now().UnixNano()
@@ -242,12 +348,12 @@ func runCase(r *rig, idx int, c *Case, tag string) {
 	defer func() { probe.Close(); runtime.KeepAlive(probe) }()
 	// serveWs has decided once either point has been passed
 	for i := 0; i < 2000; i++ {
-		if r.get(r.registered, bid) != 0 || r.get(r.done, code) != 0 {
+		if r.after(r.registered, bid, c.TLo) != 0 || r.get(r.done, code) != 0 {
 			break
 		}
 		time.Sleep(time.Millisecond)
 	}
-	if t := r.get(r.registered, bid); t != 0 {
+	if t := r.after(r.registered, bid, c.TLo); t != 0 {
 		c.Accepted, c.THi = true, t
 	} else if t := r.get(r.done, code); t != 0 {
 		c.THi = t
@@ -313,6 +419,7 @@ func runCase(r *rig, idx int, c *Case, tag string) {
 	pwrite := func(b []byte) { pwriteT(websocket.BinaryMessage, b) }
 	// what else this client does besides reading and answering pings (all of it legitimate)
 	var upongAt, cpingAt []int64
+	var cpings int64
 	var ccloseAt int64
 	behaveDone := make(chan struct{})
 	go func() {
@@ -323,6 +430,9 @@ func runCase(r *rig, idx int, c *Case, tag string) {
 		every := 400 * time.Millisecond
 		if c.WatchS >= 50 {
 			every = 5 * time.Second
+		}
+		if c.Behave == "cping-fast" {
+			every = 40 * time.Millisecond
 		}
 		time.Sleep(300 * time.Millisecond)
 		for k := 0; time.Now().Before(until); k++ {
@@ -340,16 +450,29 @@ func runCase(r *rig, idx int, c *Case, tag string) {
 					upongAt = append(upongAt, now)
 				}
 			case "cping":
-				if ctl(websocket.PingMessage, []byte("are-you-there")) == nil && len(cpingAt) < 60 {
-					cpingAt = append(cpingAt, now)
+				if ctl(websocket.PingMessage, []byte("are-you-there")) == nil {
+					atomic.AddInt64(&cpings, 1)
+					if len(cpingAt) < 60 {
+						cpingAt = append(cpingAt, now)
+					}
+				}
+			case "cping-fast": // a keep-alive ping of 100 bytes every 40 ms, in the middle of the traffic
+				if ctl(websocket.PingMessage, []byte(strings.Repeat("k", 96)+fmt.Sprintf("%04d", k%10000))) == nil {
+					atomic.AddInt64(&cpings, 1)
+					if len(cpingAt) < 60 {
+						cpingAt = append(cpingAt, now)
+					}
 				}
 			case "heartbeat": // both, alternating
 				if k%2 == 0 {
 					if ctl(websocket.PongMessage, []byte("hb")) == nil && len(upongAt) < 60 {
 						upongAt = append(upongAt, now)
 					}
-				} else if ctl(websocket.PingMessage, nil) == nil && len(cpingAt) < 60 {
-					cpingAt = append(cpingAt, now)
+				} else if ctl(websocket.PingMessage, nil) == nil {
+					atomic.AddInt64(&cpings, 1)
+					if len(cpingAt) < 60 {
+						cpingAt = append(cpingAt, now)
+					}
 				}
 			case "emptymsg":
 				pwriteT(websocket.TextMessage, []byte{})
@@ -384,6 +507,19 @@ func runCase(r *rig, idx int, c *Case, tag string) {
 			pwrite([]byte("P" + strconv.Itoa(k)))
 			time.Sleep(100 * time.Millisecond)
 		}
+	case "burst":
+		// the partner sends 60 messages of 1 KB back to back every 10 ms: the probe's queue in the relay
+		// is often not empty; the probe itself sends a message every 100 ms
+		body := []byte("S" + strings.Repeat("b", 1023))
+		for k := 0; time.Now().Before(until); k++ {
+			for n := 0; n < 60; n++ {
+				psend(body)
+			}
+			if k%10 == 0 {
+				pwrite([]byte("P" + strconv.Itoa(k)))
+			}
+			time.Sleep(10 * time.Millisecond)
+		}
 	case "onemsg":
 		// one message delivered about a second after joining, then nothing: the socket is left
 		// with the write deadline of that one data write
@@ -406,7 +542,7 @@ func runCase(r *rig, idx int, c *Case, tag string) {
 		time.Sleep(time.Until(until))
 	}
 	time.Sleep(150 * time.Millisecond) // let in-flight messages land
-	c.Dropped = r.get(r.dropped, bid)
+	c.Dropped = r.after(r.dropped, bid, c.TLo)
 	if c.Dropped > c.WatchUntil {
 		c.Dropped = 0 // after the watch: not part of the observation
 	}
@@ -431,6 +567,7 @@ func runCase(r *rig, idx int, c *Case, tag string) {
 	c.LastFrom, c.LastTo, c.ClientErr, c.DataAt = lastFrom, lastTo, clientErr, append([]int64{}, dataAt...)
 	<-behaveDone
 	c.UPongAt, c.CPingAt, c.CCloseAt, c.PongsBack = upongAt, cpingAt, ccloseAt, int(atomic.LoadInt64(&pongsBack))
+	c.CPings = int(atomic.LoadInt64(&cpings))
 	pmu.Unlock()
 }
 
@@ -451,6 +588,18 @@ func gen(rng *lib.Rng, tier string, n int) []Case {
 	}
 	for i := 0; i < n; i++ {
 		cs = append(cs, Case{Kind: "life", Mode: modes[rng.Intn(4)], PhaseMs: rng.Range(20, 950), NbfOff: -int64(rng.Range(0, 3)), ExpOff: int64(rng.Range(1, 4)), Pongs: true})
+	}
+	// tokens that come the whole way through the access API (POST /session -> code -> websocket): alone,
+	// and as the second / the first of two tokens of ONE booking with different expiries (the other, a
+	// 1 h token, is the partner's)
+	for i, via := range []string{"api", "api-after-long", "api-before-long", "api-after-long", "api-before-long", "api"} {
+		cs = append(cs, Case{Kind: "life", Mode: []string{"idle", "busy"}[i%2], Via: via, PhaseMs: []int{150, 500, 850}[i%3] + rng.Range(-30, 30),
+			NbfOff: -int64(rng.Range(1, 3)), ExpOff: int64(2 + i%3), Pongs: true})
+	}
+	// a client that sends keep-alive pings of its own in the middle of bursty traffic, with every scope
+	for i, sc := range []string{"", "w", "r", ""} {
+		cs = append(cs, Case{Kind: "life", Mode: "burst", Behave: "cping-fast", Scope: sc, Via: []string{"", "", "api", "api"}[i], PhaseMs: 200 + 150*i,
+			NbfOff: -1, ExpOff: int64(3 + i%2), Pongs: true})
 	}
 	// legitimate client behaviours besides reading and answering pings, on the idle and busy cases
 	behaviours := []string{"upong-empty", "upong-payload", "cping", "emptymsg", "closeframe"}
@@ -584,8 +733,22 @@ func oracle(c Case, idx int, res *lib.Result) {
 		}
 		return
 	}
-	if c.Behave == "cping" && len(c.CPingAt) > 0 && c.PongsBack == 0 && (c.Dropped == 0 || c.Dropped > c.CPingAt[0]+sec) {
-		bad("client-ping-unanswered", fmt.Sprintf("the client sent %d pings, the relay answered none with a pong", len(c.CPingAt)))
+	if c.CPings > 0 {
+		// every ping the client sent while the connection was up must be answered with a pong
+		// (those of the last 300 ms before the end may still be on their way)
+		end := c.Dropped
+		if end == 0 || end > E {
+			end = E
+		}
+		sentEarly := 0
+		for _, t := range c.CPingAt {
+			if t < end-300*int64(time.Millisecond) {
+				sentEarly++
+			}
+		}
+		if c.PongsBack < sentEarly {
+			bad("client-ping-unanswered", fmt.Sprintf("of the first %d pings the client sent (well before the connection ended) the relay answered only %d with a pong (scope %q, mode %s)", sentEarly, c.PongsBack, c.Scope, c.Mode))
+		}
 	}
 	if c.Behave == "closeframe" {
 		// the client itself ended it: only "not before the close frame" is the relay's business here
@@ -706,6 +869,12 @@ func main() {
 		}
 		if c.Behave != "" {
 			res.Count("behave:" + c.Behave)
+		}
+		if c.Via != "" {
+			res.Count("via:" + c.Via)
+		}
+		if c.Scope != "" {
+			res.Count("scope:" + c.Scope)
 		}
 		if c.TLo/sec != c.THi/sec {
 			res.Count("ambiguous-discarded")
